@@ -366,6 +366,10 @@ class CodeGenerator(NodeVisitor):
         # Tracks parameter definition blocks
         self._param_def_block: list[set[str]] = []
 
+        # Tracks how many loop bodies enclose the current position in
+        # the function being generated, one entry per function.
+        self._loop_depth: list[int] = [0]
+
         # Tracks the current context.
         self._context_reference_stack = ["context"]
 
@@ -691,7 +695,9 @@ class CodeGenerator(NodeVisitor):
             self.outdent()
         self.pop_parameter_definitions()
 
+        self._loop_depth.append(0)
         self.blockvisit(node.body, frame)
+        self._loop_depth.pop()
         self.return_buffer_contents(frame, force_unescaped=True)
         self.leave_frame(frame, with_python_scope=True)
         self.outdent()
@@ -1287,7 +1293,9 @@ class CodeGenerator(NodeVisitor):
             # Reset at the start of the body, a break or continue in the
             # body must not make the else branch run.
             self.writeline(f"{iteration_indicator} = 0")
+        self._loop_depth[-1] += 1
         self.blockvisit(node.body, loop_frame)
+        self._loop_depth[-1] -= 1
         self.outdent()
         self.leave_frame(
             loop_frame, with_python_scope=node.recursive and not node.else_
@@ -1967,9 +1975,15 @@ class CodeGenerator(NodeVisitor):
         self.write(self.derive_context(frame))
 
     def visit_Continue(self, node: nodes.Continue, frame: Frame) -> None:
+        if not self._loop_depth[-1]:
+            self.fail("'continue' outside loop", node.lineno)
+
         self.writeline("continue", node)
 
     def visit_Break(self, node: nodes.Break, frame: Frame) -> None:
+        if not self._loop_depth[-1]:
+            self.fail("'break' outside loop", node.lineno)
+
         self.writeline("break", node)
 
     def visit_Scope(self, node: nodes.Scope, frame: Frame) -> None:
